@@ -18,6 +18,9 @@ type srvCfg struct {
 	PreAuth   bool `json:"preauth"`
 	Unauth    bool `json:"unauth"`
 	TLS       bool `json:"tls"` // implicit TLS transport
+	// the backend session implements SessionSASL (not a parameter of the model: the model's
+	// AUTHENTICATE is the same with either backend)
+	SASL bool `json:"sasl"`
 }
 
 func (c srvCfg) coq() string {
@@ -86,11 +89,11 @@ type c05Step struct {
 func runC05(h *H) {
 	imports := []string{"From GoImap.Base Require Import Bytes.", "From GoImap.Model Require Import ServerConn ServerConnCorr."}
 	corr := h.NewCorr("serve", imports, "sc_mismatches", 250).Type("sc_case")
-	h.Rule("command sequences over the full command alphabet (36 forms incl. UID variants, AUTHENTICATE PLAIN, IDLE, APPEND with a synchronising literal, STARTTLS with a real handshake, an unknown command), each backend call scripted to succeed or fail, on a raw connection to the real server for the configurations {implicit TLS, plaintext} x {TLSConfig} x {InsecureAuth} x {greeting OK, PREAUTH} x {UNAUTHENTICATE supported}. Observed per command: tagged class, BYE/close, the backend calls with the connection state each saw (verif hook), state and transport afterwards. Exhaustive up to the tier's length from several start prefixes plus seeded random longer sequences. Oracle: every call permitted by RFC 9051 in the state it saw; Login only over TLS unless InsecureAuth; nothing processed after LOGOUT/BYE. Non-trivial = at least one backend call was made or refused for state/TLS reasons; distinct by (config, sequence, outcomes).")
+	h.Rule("command sequences over the full command alphabet (36 forms incl. UID variants, AUTHENTICATE PLAIN, IDLE, APPEND with a synchronising literal, STARTTLS with a real handshake, an unknown command), each backend call scripted to succeed or fail, on a raw connection to the real server for the configurations {implicit TLS, plaintext} x {TLSConfig} x {InsecureAuth} x {greeting OK, PREAUTH} x {UNAUTHENTICATE supported} x {backend with its own SASL mechanisms (SessionSASL) or the built-in PLAIN}. Observed per command: tagged class, BYE/close, the backend calls with the connection state each saw (verif hook), state and transport afterwards. Exhaustive up to the tier's length from several start prefixes plus seeded random longer sequences. Oracle: every call permitted by RFC 9051 in the state it saw; Login only over TLS unless InsecureAuth; nothing processed after LOGOUT/BYE. Non-trivial = at least one backend call was made or refused for state/TLS reasons; distinct by (config, sequence, outcomes).")
 
 	var cfgs []srvCfg
-	for m := 0; m < 32; m++ {
-		c := srvCfg{TLSConfig: m&1 != 0, Insecure: m&2 != 0, PreAuth: m&4 != 0, Unauth: m&8 != 0, TLS: m&16 != 0}
+	for m := 0; m < 64; m++ {
+		c := srvCfg{TLSConfig: m&1 != 0, Insecure: m&2 != 0, PreAuth: m&4 != 0, Unauth: m&8 != 0, TLS: m&16 != 0, SASL: m&32 != 0}
 		if c.TLS && !c.TLSConfig {
 			continue // an implicit-TLS listener needs a TLS configuration
 		}
@@ -101,7 +104,7 @@ func runC05(h *H) {
 		if ts := servers[c]; ts != nil {
 			return ts
 		}
-		o := srvOpts{InsecureAuth: c.Insecure, PreAuth: c.PreAuth, Unauth: c.Unauth, TLSListener: c.TLS,
+		o := srvOpts{InsecureAuth: c.Insecure, PreAuth: c.PreAuth, Unauth: c.Unauth, SASL: c.SASL, TLSListener: c.TLS,
 			Configure: func(s *stubSession) { s.recordPoll = true }}
 		if c.TLSConfig {
 			o.TLSConfig = testTLSConfig
@@ -288,6 +291,9 @@ func runC05(h *H) {
 	for _, c := range cfgs {
 		for _, pre := range prefixes {
 			for ci, cmd := range c05Alphabet {
+				if c.SASL && cmd.Coq != "CAuthPlain" && cmd.Coq != "CLogin" && cmd.Coq != "CCapability" && cmd.Coq != "CStartTLS" {
+					continue // the SASL backend only matters to authentication
+				}
 				nOut := 1 << uint(cmd.NCalls)
 				for o := 0; o < nOut; o++ {
 					var outs []bool
@@ -305,7 +311,7 @@ func runC05(h *H) {
 		}
 	}
 	// 2. all pairs (quick) / triples (thorough) of commands with all-success outcomes in 4 configs
-	sel4 := []srvCfg{{TLSConfig: true, Insecure: true}, {TLSConfig: true}, {TLSConfig: true, TLS: true, Unauth: true}, {Insecure: true, PreAuth: true, Unauth: true}}
+	sel4 := []srvCfg{{TLSConfig: true, Insecure: true}, {TLSConfig: true, SASL: true}, {TLSConfig: true, TLS: true, Unauth: true}, {Insecure: true, PreAuth: true, Unauth: true, SASL: true}}
 	depth := h.Pick(2, 3)
 	var rec func(c srvCfg, p []int)
 	rec = func(c srvCfg, p []int) {
